@@ -1,4 +1,5 @@
 import LoraVerif.Lemmas.RefineDefs
+import LoraVerif.Lemmas.RxFacts
 /-!
 # The async front-end refines the (extended) history semantics
 
@@ -8,6 +9,8 @@ join}` over a script of radio answers) are simulated by `stepC` on the event `ab
 downlink queue, the frame handed to the radio is the one of the event's output.
 -/
 namespace Model
+
+variable {X : Fault → Prop}
 
 def Call.isTx : Call → Bool
   | .tx _ _ => true
@@ -71,37 +74,37 @@ def LoopPost (r : DevRun) (st : Step Unit) (res : List RxOut × Bool × MacState
   | .macErr r' => res.2.1 = false ∧ RunRel r r' res.1 res.2.2
   | .radioErr _ => False
 
-theorem rxcLoop_sim (mp d : Nat) (fuel : Nat) (r : DevRun) :
-    Sim (rxcLoop mp d fuel r) (rxcs r.m mp (leadFrames r.script).1) (LoopPost r) := by
+theorem rxcLoop_sim (hXh : X (.hang "between_windows")) (mp d : Nat) (fuel : Nat) (r : DevRun) :
+    SimX X (rxcLoop mp d fuel r) (rxcs r.m mp (leadFrames r.script).1) (LoopPost r) := by
   induction fuel generalizing r with
-  | zero => exact Or.inl rfl
+  | zero => exact Or.inl hXh
   | succ fuel ih =>
     unfold rxcLoop
     cases hs : r.script with
     | nil =>
       simp only [DevRun.next, DevRun.log, hs, leadFrames, rxcs]
-      exact Sim.pure ⟨rfl, ⟨rfl, by simp [pushDls], rfl, ⟨[.at d, .rxContinuous], rfl, by simp [Call.isTx]⟩⟩, by simp [hs, leadFrames]⟩
+      exact SimX.pure ⟨rfl, ⟨rfl, by simp [pushDls], rfl, ⟨[.at d, .rxContinuous], rfl, by simp [Call.isTx]⟩⟩, by simp [hs, leadFrames]⟩
     | cons i rest =>
       cases i with
       | ok =>
         simp only [DevRun.next, DevRun.log, hs, leadFrames, rxcs]
-        exact Sim.pure ⟨rfl, ⟨rfl, by simp [pushDls], rfl, ⟨[.at d, .rxContinuous], rfl, by simp [Call.isTx]⟩⟩, by simp [hs, leadFrames]⟩
+        exact SimX.pure ⟨rfl, ⟨rfl, by simp [pushDls], rfl, ⟨[.at d, .rxContinuous], rfl, by simp [Call.isTx]⟩⟩, by simp [hs, leadFrames]⟩
       | err =>
         simp only [DevRun.next, DevRun.log, hs, leadFrames, rxcs]
-        exact Sim.pure ⟨rfl, ⟨rfl, by simp [pushDls], rfl, ⟨[.at d, .rxContinuous], rfl, by simp [Call.isTx]⟩⟩, by simp [hs, leadFrames]⟩
+        exact SimX.pure ⟨rfl, ⟨rfl, by simp [pushDls], rfl, ⟨[.at d, .rxContinuous], rfl, by simp [Call.isTx]⟩⟩, by simp [hs, leadFrames]⟩
       | frame snr v =>
         simp only [DevRun.next, DevRun.log, hs, leadFrames, rxcs]
-        refine Sim.same _ (fun om hom => ?_)
+        refine SimX.same _ (fun om hom => ?_)
         obtain ⟨o, m⟩ := om
         cases o with
         | none =>
           simp only
-          exact Sim.pure ⟨rfl, ⟨rfl, by simp [pushDls], rfl, ⟨[.rxContinuous], rfl, by simp [Call.isTx]⟩⟩⟩
+          exact SimX.pure ⟨rfl, ⟨rfl, by simp [pushDls], rfl, ⟨[.rxContinuous], rfl, by simp [Call.isTx]⟩⟩⟩
         | some o =>
           simp only [deliver_some]
           have hr2 : RunRel r (⟨m, rest, Call.rxContinuous :: r.calls, pushDl r.dlCap r.downlinks o, r.dlCap⟩ : DevRun) [o] m :=
             ⟨rfl, by simp [pushDls], rfl, ⟨[.rxContinuous], rfl, by simp [Call.isTx]⟩⟩
-          refine Sim.map_right (g := fun x => (o :: x.1, x.2.1, x.2.2)) (ih _) ?_
+          refine SimX.map_right (g := fun x => (o :: x.1, x.2.1, x.2.2)) (ih _) ?_
           intro st res hp
           cases st with
           | cont u r' =>
@@ -141,22 +144,22 @@ theorem parseBetween_c {s : List ScriptItem} (he : ¬ (nextItem s).1.isErr = tru
 theorem parseBetween_a {s : List ScriptItem} (he : ¬ (nextItem s).1.isErr = true) :
     parseBetween false s = (false, [], (nextItem s).2) := by simp [parseBetween, he]
 
-theorem betweenWindows_sim (cfg : DevCfg) (d : Nat) (r : DevRun) :
-    Sim (betweenWindows cfg d r) (between cfg.classC r.m (parseBetween cfg.classC r.script).2.1)
+theorem betweenWindows_sim (hXh : X (.hang "between_windows")) (cfg : DevCfg) (d : Nat) (r : DevRun) :
+    SimX X (betweenWindows cfg d r) (between cfg.classC r.m (parseBetween cfg.classC r.script).2.1)
       (BetweenPost cfg.classC r) := by
   unfold betweenWindows between
   cases hcc : cfg.classC with
   | true =>
     simp only [if_true]
-    refine Sim.same _ (fun rf _ => ?_)
+    refine SimX.same _ (fun rf _ => ?_)
     rw [simpleCall_eq]
     by_cases he : (nextItem r.script).1.isErr = true
     · simp only [he, if_true, parseBetween_err he, rxcs]
-      refine Sim.pure ?_
+      refine SimX.pure ?_
       simp only [BetweenPost, parseBetween_err he]
       exact ⟨trivial, afterCall_rel r _ rfl⟩
     · simp only [he, Bool.false_eq_true, if_false, parseBetween_c he]
-      refine (rxcLoop_sim _ _ _ (afterCall r _)).mono ?_
+      refine (rxcLoop_sim hXh _ _ _ (afterCall r _)).mono ?_
       intro st res hp
       cases st with
       | cont u r' =>
@@ -173,11 +176,11 @@ theorem betweenWindows_sim (cfg : DevCfg) (d : Nat) (r : DevRun) :
     rw [simpleCall_eq]
     by_cases he : (nextItem r.script).1.isErr = true
     · simp only [he, if_true]
-      refine Sim.pure ?_
+      refine SimX.pure ?_
       simp only [BetweenPost, parseBetween_err he]
       exact ⟨trivial, afterCall_rel r _ rfl⟩
     · simp only [he, Bool.false_eq_true, if_false]
-      refine Sim.pure ?_
+      refine SimX.pure ?_
       simp only [BetweenPost, parseBetween_a he]
       refine ⟨trivial, trivial, ?_, rfl⟩
       exact (afterCall_rel r .lowPower rfl).trans ⟨rfl, by simp [pushDls, DevRun.log], rfl, ⟨[.at d], rfl, by simp [Call.isTx]⟩⟩
@@ -243,18 +246,18 @@ theorem window_some (m : MacState) (v : RxView) (snr : Int) (mp : Nat) :
   | some o => by_cases h : (o.resp == .noUpdate) = true <;> simp [h]
 
 theorem windowComplete_sim (cfg : DevCfg) (r : DevRun) :
-    Sim (windowComplete cfg r) (closeWindow cfg.classC r.m)
+    SimX X (windowComplete cfg r) (closeWindow cfg.classC r.m)
       (fun st _ => ∃ c : Call, c.isTx = false ∧
         st = if (nextItem r.script).1.isErr then .radioErr (afterCall r c) else .cont () (afterCall r c)) := by
   unfold windowComplete closeWindow
   cases cfg.classC with
   | true =>
     simp only [if_true]
-    refine Sim.same _ (fun rf _ => ?_)
-    exact Sim.pure ⟨_, rfl, simpleCall_eq r _⟩
+    refine SimX.same _ (fun rf _ => ?_)
+    exact SimX.pure ⟨_, rfl, simpleCall_eq r _⟩
   | false =>
     simp only [Bool.false_eq_true, if_false]
-    exact Sim.pure ⟨_, rfl, simpleCall_eq r _⟩
+    exact SimX.pure ⟨_, rfl, simpleCall_eq r _⟩
 
 /-- the listening part of a window at the MAC level, by the answers to `rx_single` and to the call
 of `window_complete` -/
@@ -285,13 +288,13 @@ theorem deliver_swallow (r : DevRun) (o : Option RxOut) (m : MacState)
       simp [swallow, hn, pushDls]
 
 theorem rxListen_sim (cfg : DevCfg) (rf : RfConfig) (r : DevRun) :
-    Sim (rxListen cfg rf r)
+    SimX X (rxListen cfg rf r)
       (listenC cfg.classC r.m (nextItem r.script).1 (nextItem (nextItem r.script).2).1 rf.maxPayload.toNat) (ListenPost r) := by
   have hlog : RunRel r (afterCall r .rxSingle) [] r.m := afterCall_rel r _ rfl
   -- what follows the handling of the window's frame: `window_complete`
   have tail : ∀ (r2 : DevRun) (o : Option RxOut) (h : List RxOut), RunRel r r2 h r2.m →
       r2.script = (nextItem r.script).2 →
-      Sim (windowComplete cfg r2 >>= fun st => match st with
+      SimX X (windowComplete cfg r2 >>= fun st => match st with
             | .cont _ r => pure (.cont o r)
             | .radioErr r => pure (.radioErr r)
             | .macErr r => pure (.macErr r))
@@ -299,15 +302,15 @@ theorem rxListen_sim (cfg : DevCfg) (rf : RfConfig) (r : DevRun) :
           if (nextItem (nextItem r.script).2).1.isErr then pure (none, h, r2.m) else pure (some o, h, r2.m))
         (ListenPost r) := by
     intro r2 o h hrel hscr
-    refine Sim.bind (windowComplete_sim cfg r2) ?_
+    refine SimX.bind (windowComplete_sim cfg r2) ?_
     intro st _ ⟨c, hc, hst⟩
     subst hst
     rw [hscr]
     by_cases he : (nextItem (nextItem r.script).2).1.isErr = true
     · simp only [he, if_true]
-      exact Sim.pure ⟨rfl, by simpa using hrel.trans (afterCall_rel r2 c hc)⟩
+      exact SimX.pure ⟨rfl, by simpa using hrel.trans (afterCall_rel r2 c hc)⟩
     · simp only [he, Bool.false_eq_true, if_false]
-      exact Sim.pure ⟨rfl, by simpa using hrel.trans (afterCall_rel r2 c hc), by simp [afterCall, hscr]⟩
+      exact SimX.pure ⟨rfl, by simpa using hrel.trans (afterCall_rel r2 c hc), by simp [afterCall, hscr]⟩
   unfold rxListen listenC
   cases hs : r.script with
   | nil =>
@@ -326,14 +329,14 @@ theorem rxListen_sim (cfg : DevCfg) (rf : RfConfig) (r : DevRun) :
       exact this
     | err =>
       simp only [DevRun.next, DevRun.log, hs, nextItem, ScriptItem.isErr, if_true]
-      refine Sim.pure ⟨rfl, ?_⟩
+      refine SimX.pure ⟨rfl, ?_⟩
       have := hlog
       simp only [afterCall, hs, nextItem] at this
       exact this
     | frame snr v =>
       simp only [DevRun.next, DevRun.log, hs, nextItem, ScriptItem.isErr, ScriptItem.frame?, Bool.false_eq_true, if_false,
         window_some, bind_assoc, pure_bind]
-      refine Sim.same _ (fun om hom => ?_)
+      refine SimX.same _ (fun om hom => ?_)
       obtain ⟨o, m⟩ := om
       have hdl : ∀ o', o = some o' → o'.resp = .noUpdate → o'.downlink = none := by
         intro o' e hn; subst e
@@ -373,8 +376,9 @@ theorem listenC_tail (cc : Bool) (m1 : MacState) (i2 i3 : ScriptItem) (mp : Nat)
   congr 1; funext _
   by_cases h3 : i3.isErr = true <;> simp [h3]
 
-theorem oneWindow_sim (cfg : DevCfg) (join second : Bool) (rf : RfConfig) (r : DevRun) :
-    Sim (oneWindow cfg join second rf r)
+theorem oneWindow_sim (hXh : X (.hang "between_windows")) (cfg : DevCfg) (join second : Bool) (rf : RfConfig) (r : DevRun)
+    (hXd : ∀ e, startDelay (macRxDelay r.m join second) cfg.txMs cfg.lead = .error e → X e) :
+    SimX X (oneWindow cfg join second rf r)
       (winC cfg.classC r.m (parseWin cfg.classC r.script).1.cs (parseWin cfg.classC r.script).1.f rf.maxPayload.toNat
         (parseWin cfg.classC r.script).1.errBefore (parseWin cfg.classC r.script).1.errAfter)
       (WinPost cfg.classC r) := by
@@ -389,9 +393,9 @@ theorem oneWindow_sim (cfg : DevCfg) (join second : Bool) (rf : RfConfig) (r : D
     · simp only [h, Bool.false_eq_true, if_false]
       split <;> (try split) <;> rfl
   unfold oneWindow winC
-  refine Sim.extra (startDelay_extra _ _ _) (fun d _ => ?_)
+  refine SimX.extra hXd (fun d _ => ?_)
   rw [hcs]
-  refine Sim.bind (betweenWindows_sim cfg d r) ?_
+  refine SimX.bind (betweenWindows_sim hXh cfg d r) ?_
   intro st res hp
   obtain ⟨os, fin, m1⟩ := res
   cases st with
@@ -399,12 +403,12 @@ theorem oneWindow_sim (cfg : DevCfg) (join second : Bool) (rf : RfConfig) (r : D
     obtain ⟨hb, hrel⟩ := hp
     have hw : (parseWin cfg.classC r.script).1.errBefore = true := by simp [parseWin, hb]
     simp only [hw, Bool.or_true, if_true]
-    exact Sim.pure ⟨rfl, hrel⟩
+    exact SimX.pure ⟨rfl, hrel⟩
   | macErr r1 =>
     obtain ⟨hb, hfin, hrel⟩ := hp
     simp only at hfin
     simp only [hfin, Bool.not_false, Bool.true_or, if_true]
-    exact Sim.pure ⟨rfl, hrel⟩
+    exact SimX.pure ⟨rfl, hrel⟩
   | cont u r1 =>
     obtain ⟨hb, hfin, hrel, hscr⟩ := hp
     simp only at hfin hrel
@@ -417,9 +421,9 @@ theorem oneWindow_sim (cfg : DevCfg) (join second : Bool) (rf : RfConfig) (r : D
     by_cases h1 : (nextItem r1.script).1.isErr = true
     · have hw : (parseWin cfg.classC r.script).1.errBefore = true := by simp [hpw, parseListen, h1]
       simp only [h1, hw, if_true]
-      exact Sim.pure ⟨rfl, hm1 ▸ hrel.trans_silent (afterCall_rel r1 _ rfl)⟩
+      exact SimX.pure ⟨rfl, hm1 ▸ hrel.trans_silent (afterCall_rel r1 _ rfl)⟩
     · simp only [h1, Bool.false_eq_true, if_false]
-      have hsim := rxListen_sim cfg rf (afterCall r1 (.setupRx rf (some cfg.buffer)))
+      have hsim := rxListen_sim (X := X) cfg rf (afterCall r1 (.setupRx rf (some cfg.buffer)))
       by_cases h2 : (nextItem (nextItem r1.script).2).1.isErr = true
       · have hw : (parseWin cfg.classC r.script).1.errBefore = true := by simp [hpw, parseListen, h1, h2]
         simp only [hw, if_true]
@@ -531,8 +535,9 @@ def ProcPost (r : DevRun) (st : Step Response) (res : ProcEnd × List RxOut × M
   | .radioErr r' => res.1 = .cut ∧ RunRel r r' res.2.1 res.2.2
   | .macErr r' => res.1 = .cut ∧ RunRel r r' res.2.1 res.2.2
 
-theorem rxDownlink_sim (cfg : DevCfg) (join : Bool) (tx : TxOut) (r : DevRun) :
-    Sim (rxDownlink cfg join tx r)
+theorem rxDownlink_sim (hXh : X (.hang "between_windows")) (cfg : DevCfg) (join : Bool) (tx : TxOut) (r : DevRun)
+    (hXd : ∀ second e, startDelay (macRxDelay r.m join second) cfg.txMs cfg.lead = .error e → X e) :
+    SimX X (rxDownlink cfg join tx r)
       (cycleC cfg.classC r.m
         (faultOf (parseWin cfg.classC r.script).1 (parseWin cfg.classC (parseWin cfg.classC r.script).2).1)
         (parseWin cfg.classC r.script).1.cs (parseWin cfg.classC r.script).1.f
@@ -542,7 +547,7 @@ theorem rxDownlink_sim (cfg : DevCfg) (join : Bool) (tx : TxOut) (r : DevRun) :
   unfold rxDownlink cycleC
   simp only [faultOf_ne_tx, if_false]
   rw [winC_fault1]
-  refine Sim.bind_eq (oneWindow_sim cfg join false tx.rx1 r) ?_
+  refine SimX.bind_eq (oneWindow_sim hXh cfg join false tx.rx1 r (hXd false)) ?_
   intro st res _ hres hp
   obtain ⟨r1, h1, m1⟩ := res
   cases st with
@@ -550,25 +555,30 @@ theorem rxDownlink_sim (cfg : DevCfg) (join : Bool) (tx : TxOut) (r : DevRun) :
     obtain ⟨e, hrel⟩ := hp
     simp only at e hrel
     subst e
-    exact Sim.pure ⟨rfl, hrel⟩
+    exact SimX.pure ⟨rfl, hrel⟩
   | macErr r' =>
     obtain ⟨e, hrel⟩ := hp
     simp only at e hrel
     subst e
-    exact Sim.pure ⟨rfl, hrel⟩
+    exact SimX.pure ⟨rfl, hrel⟩
   | cont o r' =>
     obtain ⟨e, hrel, hscr⟩ := hp
     simp only at e hrel
     subst e
     obtain ⟨hb1, ha1⟩ := winC_some _ _ _ _ _ _ _ _ _ _ hres
     cases o with
-    | some o => exact Sim.pure (Or.inl ⟨o, rfl, rfl, hrel⟩)
+    | some o => exact SimX.pure (Or.inl ⟨o, rfl, rfl, hrel⟩)
     | none =>
       simp only
       rw [winC_fault2 _ _ _ _ _ hb1 ha1]
       have hm : r'.m = m1 := hrel.m
       rw [← hm, ← hscr]
-      refine Sim.bind (oneWindow_sim cfg join true tx.rx2 r') ?_
+      have hcfg : r'.m.cfg = r.m.cfg := by rw [hm]; exact winC_none_cfg _ _ _ _ _ _ _ _ _ hres
+      refine SimX.bind (oneWindow_sim hXh cfg join true tx.rx2 r' (by
+        intro e he
+        have : macRxDelay r'.m join true = macRxDelay r.m join true := by unfold macRxDelay; rw [hcfg]
+        rw [this] at he
+        exact hXd true e he)) ?_
       intro st2 res2 hp2
       obtain ⟨r2, h2, m2⟩ := res2
       cases st2 with
@@ -576,20 +586,20 @@ theorem rxDownlink_sim (cfg : DevCfg) (join : Bool) (tx : TxOut) (r : DevRun) :
         obtain ⟨e, hrel2⟩ := hp2
         simp only at e hrel2
         subst e
-        exact Sim.pure ⟨rfl, hrel.trans hrel2⟩
+        exact SimX.pure ⟨rfl, hrel.trans hrel2⟩
       | macErr r'' =>
         obtain ⟨e, hrel2⟩ := hp2
         simp only at e hrel2
         subst e
-        exact Sim.pure ⟨rfl, hrel.trans hrel2⟩
+        exact SimX.pure ⟨rfl, hrel.trans hrel2⟩
       | cont o2 r'' =>
         obtain ⟨e, hrel2, _⟩ := hp2
         simp only at e hrel2
         subst e
         cases o2 with
-        | some o => exact Sim.pure (Or.inl ⟨o, rfl, rfl, hrel.trans hrel2⟩)
+        | some o => exact SimX.pure (Or.inl ⟨o, rfl, rfl, hrel.trans hrel2⟩)
         | none =>
-          refine Sim.pure (Or.inr ⟨rfl, ?_, ?_⟩)
+          refine SimX.pure (Or.inr ⟨rfl, ?_, ?_⟩)
           · simp only; rw [hrel2.m]
           · have := hrel.trans hrel2
             refine ⟨?_, this.dls, this.cap, this.calls⟩
@@ -627,6 +637,20 @@ structure OpRel {σ} (r : DevRun) (a : DevResult × DevRun × σ) (b : (MacState
   resp : RespRel a.1 b.2.out
   tx : TxRel r a.2.1 b.2.out
 
+theorem macSend_cfg' {σ} (g : Rng σ) (m : MacState) (data : List Nat) (fport : Nat) (conf : Bool) (rs rs' : σ)
+    (o : Option SendOut) (m' : MacState) (h : macSend g m data fport conf rs = .ok (o, m', rs')) : m'.cfg = m.cfg := by
+  unfold macSend at h
+  split at h
+  · obtain ⟨⟨desc, s1⟩, _, h⟩ := Except.bind_eq_ok h
+    obtain ⟨dr, _, h⟩ := Except.bind_eq_ok h
+    obtain ⟨⟨tx, region, rs1⟩, _, h⟩ := Except.bind_eq_ok h
+    obtain ⟨pw, _, h⟩ := Except.bind_eq_ok h
+    obtain ⟨⟨rx1, rx2⟩, _, h⟩ := Except.bind_eq_ok h
+    simp only [pure, Except.pure, Except.ok.injEq, Prod.mk.injEq] at h
+    rw [← h.2.1]
+  · simp only [pure, Except.pure, Except.ok.injEq, Prod.mk.injEq] at h
+    rw [← h.2.1]
+
 theorem respRel_fault (m : MacState) (alt : DevResult) (halt : alt.resp? = none) (o : SendOut) :
     RespRel (if faultExpired m then .ok .sessionExpired else alt)
       (.up o (if faultExpired m then some .sessionExpired else none) none) := by
@@ -634,26 +658,37 @@ theorem respRel_fault (m : MacState) (alt : DevResult) (halt : alt.resp? = none)
   · simp [RespRel, hx, DevResult.resp?]
   · simp only [RespRel, hx, Bool.false_eq_true, if_false]; exact halt
 
-theorem asyncSend_sim {σ} (g : Rng σ) (cfg : DevCfg) (r : DevRun) (data : List Nat) (port : Nat) (conf : Bool) (rs : σ) :
-    Sim (asyncSend g cfg r data port conf rs) (stepC g (r.m, rs) (abstractSendC cfg r.script data port conf)) (OpRel r) := by
+theorem asyncSend_sim {σ} (hXh : X (.hang "between_windows")) (g : Rng σ) (cfg : DevCfg) (r : DevRun) (data : List Nat)
+    (port : Nat) (conf : Bool) (rs : σ)
+    (hXd : ∀ second e, startDelay (macRxDelay r.m false second) cfg.txMs cfg.lead = .error e → X e) :
+    SimX X (asyncSend g cfg r data port conf rs) (stepC g (r.m, rs) (abstractSendC cfg r.script data port conf)) (OpRel r) := by
   unfold asyncSend abstractSendC
   by_cases he : (nextItem r.script).1.isErr = true
   · simp only [he, if_true, stepC]
-    refine Sim.same _ (fun oms _ => ?_)
+    refine SimX.same _ (fun oms _ => ?_)
     obtain ⟨o, m, rs1⟩ := oms
     cases o with
-    | none => exact Sim.pure ⟨rfl, rfl, by simp [pushDls], rfl, rfl, rfl⟩
+    | none => exact SimX.pure ⟨rfl, rfl, by simp [pushDls], rfl, rfl, rfl⟩
     | some out =>
       simp only [simpleCall_eq, he, if_true, cycleC, pure_bind]
-      exact Sim.pure ⟨rfl, rfl, by simp [pushDls, afterCall], rfl, respRel_fault _ _ rfl _, ⟨[], rfl, by simp⟩⟩
+      exact SimX.pure ⟨rfl, rfl, by simp [pushDls, afterCall], rfl, respRel_fault _ _ rfl _, ⟨[], rfl, by simp⟩⟩
   · simp only [he, Bool.false_eq_true, if_false, stepC]
-    refine Sim.same _ (fun oms _ => ?_)
+    refine SimX.same _ (fun oms _ => ?_)
     obtain ⟨o, m, rs1⟩ := oms
     cases o with
-    | none => exact Sim.pure ⟨rfl, rfl, by simp [pushDls], rfl, rfl, rfl⟩
+    | none => exact SimX.pure ⟨rfl, rfl, by simp [pushDls], rfl, rfl, rfl⟩
     | some out =>
       simp only [simpleCall_eq, he, Bool.false_eq_true, if_false]
-      refine Sim.bind (rxDownlink_sim cfg false out.tx ((afterCall { r with m := m } (.tx out.tx (frameLen out.frame))).log .reset)) ?_
+      rename_i hsend
+      have hmc : m.cfg = r.m.cfg := macSend_cfg' g _ _ _ _ _ _ _ _ hsend
+      refine SimX.bind (rxDownlink_sim hXh cfg false out.tx ((afterCall { r with m := m } (.tx out.tx (frameLen out.frame))).log .reset) (by
+        intro second e he
+        have : macRxDelay ((afterCall { r with m := m } (.tx out.tx (frameLen out.frame))).log .reset).m false second =
+            macRxDelay r.m false second := by
+          show macRxDelay m false second = _
+          unfold macRxDelay; rw [hmc]
+        rw [this] at he
+        exact hXd second e he)) ?_
       intro st res hp
       obtain ⟨fin, heard, m2⟩ := res
       have hbase : ∀ (r' : DevRun) (m' : MacState),
@@ -674,40 +709,46 @@ theorem asyncSend_sim {σ} (g : Rng σ) (cfg : DevCfg) (r : DevRun) (data : List
         · simp only at e hresp hrel
           subst e
           obtain ⟨h1, h2, h3, h4⟩ := hbase r' m2 hrel
-          exact Sim.pure ⟨h1, rfl, h2, h3, by simp [RespRel, DevResult.resp?, hresp], h4⟩
+          exact SimX.pure ⟨h1, rfl, h2, h3, by simp [RespRel, DevResult.resp?, hresp], h4⟩
         · simp only at e hresp hrel
           subst e
           obtain ⟨h1, h2, h3, h4⟩ := hbase r' _ hrel
-          exact Sim.pure ⟨h1, rfl, h2, h3, by simp [RespRel, DevResult.resp?, hresp], h4⟩
+          exact SimX.pure ⟨h1, rfl, h2, h3, by simp [RespRel, DevResult.resp?, hresp], h4⟩
       | radioErr r' =>
         obtain ⟨e, hrel⟩ := hp
         simp only at e hrel
         subst e
         obtain ⟨h1, h2, h3, h4⟩ := hbase r' m2 hrel
         subst h1
-        exact Sim.pure ⟨rfl, rfl, h2, h3, respRel_fault _ _ rfl _, h4⟩
+        exact SimX.pure ⟨rfl, rfl, h2, h3, respRel_fault _ _ rfl _, h4⟩
       | macErr r' =>
         obtain ⟨e, hrel⟩ := hp
         simp only at e hrel
         subst e
         obtain ⟨h1, h2, h3, h4⟩ := hbase r' m2 hrel
         subst h1
-        exact Sim.pure ⟨rfl, rfl, h2, h3, respRel_fault _ _ rfl _, h4⟩
+        exact SimX.pure ⟨rfl, rfl, h2, h3, respRel_fault _ _ rfl _, h4⟩
 
-theorem asyncJoin_sim {σ} (g : Rng σ) (cfg : DevCfg) (r : DevRun) (rs : σ) :
-    Sim (asyncJoin g cfg r rs) (stepC g (r.m, rs) (abstractJoinC cfg r.script)) (OpRel r) := by
+theorem asyncJoin_sim {σ} (hXh : X (.hang "between_windows")) (g : Rng σ) (cfg : DevCfg) (r : DevRun) (rs : σ)
+    (hXd : ∀ second e, startDelay (macRxDelay r.m true second) cfg.txMs cfg.lead = .error e → X e) :
+    SimX X (asyncJoin g cfg r rs) (stepC g (r.m, rs) (abstractJoinC cfg r.script)) (OpRel r) := by
   unfold asyncJoin abstractJoinC
   by_cases he : (nextItem r.script).1.isErr = true
   · simp only [he, if_true, stepC]
-    refine Sim.same _ (fun oms _ => ?_)
+    refine SimX.same _ (fun oms _ => ?_)
     obtain ⟨out, m, rs1⟩ := oms
     simp only [simpleCall_eq, he, if_true, cycleC, pure_bind]
-    exact Sim.pure ⟨rfl, rfl, by simp [pushDls, afterCall], rfl, rfl, ⟨[], rfl, by simp⟩⟩
+    exact SimX.pure ⟨rfl, rfl, by simp [pushDls, afterCall], rfl, rfl, ⟨[], rfl, by simp⟩⟩
   · simp only [he, Bool.false_eq_true, if_false, stepC]
-    refine Sim.same _ (fun oms _ => ?_)
+    refine SimX.same _ (fun oms _ => ?_)
     obtain ⟨out, m, rs1⟩ := oms
     simp only [simpleCall_eq, he, Bool.false_eq_true, if_false]
-    refine Sim.bind (rxDownlink_sim cfg true out.tx ((afterCall { r with m := m } (.tx out.tx 23)).log .reset)) ?_
+    refine SimX.bind (rxDownlink_sim hXh cfg true out.tx ((afterCall { r with m := m } (.tx out.tx 23)).log .reset) (by
+      intro second e he
+      have : macRxDelay ((afterCall { r with m := m } (.tx out.tx 23)).log .reset).m true second = macRxDelay r.m true second := by
+        cases second <;> rfl
+      rw [this] at he
+      exact hXd second e he)) ?_
     intro st res hp
     obtain ⟨fin, heard, m2⟩ := res
     have hbase : ∀ (r' : DevRun) (m' : MacState),
@@ -728,22 +769,34 @@ theorem asyncJoin_sim {σ} (g : Rng σ) (cfg : DevCfg) (r : DevRun) (rs : σ) :
       · simp only at e hresp hrel
         subst e
         obtain ⟨h1, h2, h3, h4⟩ := hbase r' m2 hrel
-        exact Sim.pure ⟨h1, rfl, h2, h3, by simp [RespRel, DevResult.resp?, hresp], h4⟩
+        exact SimX.pure ⟨h1, rfl, h2, h3, by simp [RespRel, DevResult.resp?, hresp], h4⟩
       · simp only at e hresp hrel
         subst e
         obtain ⟨h1, h2, h3, h4⟩ := hbase r' _ hrel
-        exact Sim.pure ⟨h1, rfl, h2, h3, by simp [RespRel, DevResult.resp?, hresp], h4⟩
+        exact SimX.pure ⟨h1, rfl, h2, h3, by simp [RespRel, DevResult.resp?, hresp], h4⟩
     | radioErr r' =>
       obtain ⟨e, hrel⟩ := hp
       simp only at e hrel
       subst e
       obtain ⟨h1, h2, h3, h4⟩ := hbase r' m2 hrel
-      exact Sim.pure ⟨h1, rfl, h2, h3, rfl, h4⟩
+      exact SimX.pure ⟨h1, rfl, h2, h3, rfl, h4⟩
     | macErr r' =>
       obtain ⟨e, hrel⟩ := hp
       simp only at e hrel
       subst e
       obtain ⟨h1, h2, h3, h4⟩ := hbase r' m2 hrel
-      exact Sim.pure ⟨h1, rfl, h2, h3, rfl, h4⟩
+      exact SimX.pure ⟨h1, rfl, h2, h3, rfl, h4⟩
+
+/-! ### the instances for `Extra` (no assumption on the board's timing constants) -/
+
+theorem extra_hang : Extra (.hang "between_windows") := rfl
+
+theorem asyncSend_simE {σ} (g : Rng σ) (cfg : DevCfg) (r : DevRun) (data : List Nat) (port : Nat) (conf : Bool) (rs : σ) :
+    SimX Extra (asyncSend g cfg r data port conf rs) (stepC g (r.m, rs) (abstractSendC cfg r.script data port conf)) (OpRel r) :=
+  asyncSend_sim extra_hang g cfg r data port conf rs (fun _ e he => startDelay_extra _ _ _ e he)
+
+theorem asyncJoin_simE {σ} (g : Rng σ) (cfg : DevCfg) (r : DevRun) (rs : σ) :
+    SimX Extra (asyncJoin g cfg r rs) (stepC g (r.m, rs) (abstractJoinC cfg r.script)) (OpRel r) :=
+  asyncJoin_sim extra_hang g cfg r rs (fun _ e he => startDelay_extra _ _ _ e he)
 
 end Model
